@@ -1,6 +1,16 @@
 package main
 
 func specs() []*Spec {
+	out := specsBase()
+	for _, sp := range out {
+		if a, ok := ruleAddenda[sp.ID]; ok {
+			sp.Rule += " Added after the seeded-change rounds: " + a
+		}
+	}
+	return out
+}
+
+func specsBase() []*Spec {
 	trusted := []string{"SHA-512 and math/big of the Go toolchain", "reference model /verif/ref (self-tested against RFC 8032 / RFC 7748 vectors, crypto/ed25519 and crypto/ecdh at setup)"}
 	return []*Spec{
 		{
@@ -120,14 +130,14 @@ func specs() []*Spec {
 				{Pkg: "extra/x25519", Job: "C15sched", Instr: "sched", Quick: def, Thorough: []string{"default", "noasm"}},
 				{Pkg: "extra/x25519", Job: "C15race", Race: true, Quick: def, Thorough: []string{"default", "noasm"}},
 			},
-			Rule:   "E2 histories: every sequence of <= 2 (thorough 3) calls over a 19-operation alphabet (Sign pure/ctx/ph, Verify good/bad, ZIP-215 small-order, VerifyBatch of 4 good / 4 with one bad / 5 / 65 / 3, GenerateKey, NewKeyFromSeed, X25519 base / generic / low-order, both key conversions, Equal), each history in a FRESH process: every call's result == its result alone in a fresh process; content hash of every package-level variable of the five packages (registered by generated code) unchanged after every call. E3 schedules: 190 two-thread scenarios (every unordered pair of operations), 12 (thorough 24) three-thread scenarios, 12 scenarios of 2 threads x 2 calls, on a build whose every statement touching a package-level variable is preceded by a scheduler hook: discovery run with per-access content hashing finds written variables; a variable written by one call and accessed by a concurrent call is a data race (the library has no synchronisation); preemption-bounded DFS (bound 2, thorough 3) over call boundaries and accesses to written variables, each schedule in a fresh process, oracle = solo results and unchanged global state; with no written variable all access events commute and the executed call orders represent every interleaving. Auxiliary: the same scenarios free-running under the Go race detector. distinct = history / scenario.",
+			Rule:   "E2 histories: every sequence of <= 2 (thorough 3) calls over a 27-operation alphabet (Sign pure/ctx/ph, Verify good/bad, ZIP-215 small-order, VerifyBatch of 4 good / 4 with one bad / 5 / 65 / 3, GenerateKey, NewKeyFromSeed, X25519 base / generic / low-order, both key conversions, Equal), each history in a FRESH process: every call's result == its result alone in a fresh process; content hash of every package-level variable of the five packages (registered by generated code) unchanged after every call. E3 schedules: 190 two-thread scenarios (every unordered pair of operations), 12 (thorough 24) three-thread scenarios, 12 scenarios of 2 threads x 2 calls, on a build whose every statement touching a package-level variable is preceded by a scheduler hook: discovery run with per-access content hashing finds written variables; a variable written by one call and accessed by a concurrent call is a data race (the library has no synchronisation); preemption-bounded DFS (bound 2, thorough 3) over call boundaries and accesses to written variables, each schedule in a fresh process, oracle = solo results and unchanged global state; with no written variable all access events commute and the executed call orders represent every interleaving. Auxiliary: the same scenarios free-running under the Go race detector. distinct = history / scenario.",
 			Assume: []string{"interleavings are explored at accesses to package-level variables (found by type-checking the current sources) and call boundaries; shared memory reached only through pointers smuggled into globals is seen by the content-hash invariant and the free-running race pass", "sequential consistency; the Go memory model's weaker orderings are not modelled"},
 		},
 		{
 			ID:     "C20",
 			Units:  []Unit{{Pkg: "extra/x25519", Job: "C20", Instr: "trace", Quick: []string{"default", "noasm", "force32bit", "appengine"}, Thorough: allCfg}},
 			Rule:   "E4 (2-safety by self-composition on traces): the five packages are rebuilt with every branch condition, short-circuit operand, switch tag, loop iteration, non-constant index / slice bound and variable-time primitive (bytes.Equal/Compare/...: leak model = lengths and common-prefix length) wrapped in logging identity functions (type-checked source instrumentation of the current tree). For each of 11 scenarios (NewKeyFromSeed, GenerateKey, Sign pure/ctx/ph, ScalarBaseMult, X25519(s, Basepoint), EdPrivateKeyToX25519, PrivateKey.Equal with the secret as receiver / as argument, Public/Seed) the public shape is fixed and the secret ranges over an alphabet (1056 seeds: LE32(0..1023) incl. 0xff..ff, 32 hash-derived; thorough 8224; the nibble-pattern scalar alphabet for X25519: every digit value at every position; key pairs agreeing with the other key in the first j bytes, j in {0,1,2,16,31,32,33,62,63,64}); all executions of a scenario must produce one identical event trace; on a mismatch both runs are repeated with full logs and the first diverging site is reported. The assembly selector is checked by a straight-line scanner (allow-listed opcodes, no J*/CALL/LOOP, memory operands only const(R14), const(R15), name+const(FP), base registers never rewritten).",
-			Assume: []string{"control flow, indices and declared variable-time primitives of the library's own Go code; not micro-architectural timing, compiler code generation, or the standard library's internals (crypto/sha512, crypto/subtle, encoding/binary, math/bits are the trusted constant-time base)", "golang.org/x/crypto/curve25519 (generic X25519 ladder) is outside the instrumented code"},
+			Assume: []string{"control flow, indices and declared variable-time primitives of the library's own Go code; not micro-architectural timing, compiler code generation, or the standard library's internals (crypto/sha512, crypto/subtle, encoding/binary, math/bits are the trusted constant-time base)", "since fix F5 the generic X25519 ladder is library code: it is traced as an advisory scenario (not among the operations the property lists; a divergence is recorded in the evidence, not raised)"},
 		},
 		// NEXT-SPEC
 		{
@@ -139,4 +149,26 @@ func specs() []*Spec {
 			Assume: []string{"SHA-512 of the Go toolchain", "reference model ref.Verify (self-tested against RFC 8032 vectors and crypto/ed25519)"},
 		},
 	}
+}
+
+// ruleAddenda: what the enumerations gained after the rounds of independently written changes
+// (DESIGN 12.1); appended to the rule text of the evidence.
+var ruleAddenda = map[string]string{
+	"C01": "variant dimension of 6 (incl. 255-byte contexts and ph under the ctx variant's context); dimension Rrel (signature carries (-x,y) / (x,-y) of the point the equation yields); honest inputs signed by the model.",
+	"C03": "S = (r + h a) mod L evaluated as sign() does on all triples of a scalar boundary alphabet, per configuration; later-chunk positions.",
+	"C05": "the heterogeneous batch shapes also in default mode (neighbours stay accepted, the entry gets the default verdict).",
+	"C06": "level 1e: entropy sources answering with 1/16/17/100/1000 bytes per call x bad positions in every chunk; homogeneous chunks; runs of one bad entry; cross-variant and model-signed wrong-length-digest entries.",
+	"C07": "digest-length sweep in batches of 70 and 140 at the first/last positions of every batched chunk; hash selectors 0..24, 64, 200, 2^31; homogeneous batches.",
+	"C09": "runs of one small-order entry across a chunk boundary; small-order entry before/after a malformed entry (key31, sig63, msg63) in the first and a later chunk.",
+	"C10": "constructed y whose square-root check value has one non-zero byte at each position, or the same byte at positions i and i+4k; points with tiny x.",
+	"C11": "constructed (scalar, point) pairs for chosen results: one non-zero byte per position, two equal bytes at (i,j), u = k and p-k (k < 64), u around every limb boundary of both layouts; the one-bit / byte-0 / byte-31 value neighbourhood of the base point; re-slices of Basepoint; carry-run scalars (runs of 7/8/15/0 of limb-like length with the digit below sending or not sending a carry); input arrays intact; results fresh.",
+	"C13": "canaries with spare capacity, content-intact comparison per content class, aliasing, malformed kinds key64/key0/msg-huge, hash selectors 0..40, 63..65, 200, 2^16, 2^31, 2^32-1 through Sign and VerifyBatch.",
+	"C14": "every pair of byte positions x {same mask at both, +1/-1} for Equal on public and private keys.",
+	"C15": "buffer-reuse histories (9 families x 3 content variants written into the same caller buffers, sequences of 2, thorough 3); fill-perturb-recheck histories (1..8 keys, 10 perturbing calls); depth-4 (thorough 6) histories over 6 operations; goroutines started by the library are recognised and never scheduled.",
+	"C16": "dirty-output pass (result must not depend on the output variable's prior content); carry-run scalars on the fixed-base path; all 7 configurations in the quick tier.",
+	"C17": "every multi-scalar case also into an output point holding [4+n]B; reuse sequences share heap and output point and put r=0 / r=1 chunks after a general chunk; end to end: fallback offsets of mixed batches == the chunks holding a bad entry.",
+	"C18": "dirty-output pass; reducing and after-basic forms on one-level unreduced operands on either side.",
+	"C19": "dirty-output pass.",
+	"C08": "layer-level transcripts for modm and ge25519; X25519 constructed results (u = k, p-k, powers of 256) and carry-run scalars.",
+	"C20": "advisory trace of the generic X25519 ladder (library code since fix F5).",
 }
